@@ -64,7 +64,7 @@ func init() {
 			"a deleted or replaced-by-directory page is simply not registered (nothing uses it); unreadable files are produced with symlinks (the sandbox runs as root, so permission bits do not bite)",
 			"relative template directories only (a leading '/' is trimmed by the configuration)",
 		},
-		CPUBudget: 8,
+		CPUBudget: 40,
 		Sections: func(tier core.Tier, seed int64) []core.Section {
 			var secs []core.Section
 			// ---- naming ----
